@@ -74,8 +74,11 @@ type enumT struct {
 	// aliasFalse: the enum spells the DEFAULT out, `option allow_alias = false;` — the option is
 	// present (has a location) but its value is what ENUM_NO_ALLOW_ALIAS demands
 	aliasFalse bool
-	noise      []string // further explicit-default option statements (`option deprecated = false;`)
-	values     []valueT
+	// closed: editions files only — `option features.enum_type = CLOSED;` at the enum: a CLOSED enum (like
+	// every proto2 enum) may declare a non-zero value first; an OPEN one (proto3, editions default) may not
+	closed bool
+	noise  []string // further explicit-default option statements (`option deprecated = false;`)
+	values []valueT
 }
 
 type oneofT struct {
@@ -185,11 +188,14 @@ type fileT struct {
 	imports  []impT
 	opts     [7]optT
 	noise    []string // file options no lint rule reads, spelled with their default value
-	enums    []enumT
-	msgs     []msgT
-	svcs     []svcT
-	exts     []fieldT
-	order    []byte // permutation of "emsx": order of the top-level declaration kinds
+	// enumClosed: editions files only — `option features.enum_type = CLOSED;` at FILE level: every enum of
+	// the file is closed
+	enumClosed bool
+	enums      []enumT
+	msgs       []msgT
+	svcs       []svcT
+	exts       []fieldT
+	order      []byte // permutation of "emsx": order of the top-level declaration kinds
 }
 
 type wsT struct {
@@ -635,6 +641,9 @@ func (r *renderer) enum(ind, path string, e enumT) {
 		r.tok(path+".3.2", "option allow_alias = false;")
 		r.write("\n")
 	}
+	if e.closed {
+		r.write(ind + "  option features.enum_type = CLOSED;\n")
+	}
 	for _, n := range e.noise {
 		r.write(ind + "  " + n + "\n")
 	}
@@ -838,6 +847,9 @@ func render(w *wsT, f *fileT) (string, map[string]span) {
 		}
 		r.tok(pk("8", optFieldNumbers[k]), "option "+optNames[k]+" = "+val+";")
 		r.write("\n")
+	}
+	if f.enumClosed {
+		r.write("option features.enum_type = CLOSED;\n")
 	}
 	for _, n := range f.noise {
 		r.write(n + "\n")
